@@ -71,6 +71,15 @@ struct Reader {
 };
 static Reader *RD;
 static int rd_cb(void *c, int status);
+static void *g_wait_cookie;
+static int g_wait_fn;
+static int rd_cb_checked(int fn, void *c, int status) {
+  if (!X->failed && (c != g_wait_cookie || fn != g_wait_fn))
+    X->fail("wrong-callback-or-cookie", std::string("a wait was answered through ") + (fn != g_wait_fn ? "the callback function of an earlier wait" : "its own function but with the cookie of an earlier wait"));
+  return rd_cb(c, status);
+}
+static int rd_cb_a(void *c, int status) { return rd_cb_checked(0, c, status); }
+static int rd_cb_b(void *c, int status) { return rd_cb_checked(1, c, status); }
 static int rd_cancel_cb(void *c);
 
 static void rd_issue() {
@@ -98,7 +107,11 @@ static void rd_issue() {
   r.cancelled = false;
   r.callbacks_cur = 0;
   r.waits++;
-  if (shim_nr_wait(r.R, r.cur->k, rd_cb, &r) != 0) {
+  // every wait has its own cookie, and waits alternate between two callback functions (a protocol state machine: header callback,
+  // body callback): the wait must call back THIS function with THIS cookie
+  g_wait_cookie = (void *)(uintptr_t)(0x1000 + 16 * r.waits);
+  g_wait_fn = r.waits & 1;
+  if (shim_nr_wait(r.R, r.cur->k, g_wait_fn ? rd_cb_b : rd_cb_a, g_wait_cookie) != 0) {
     X->fail("wait-refused", "netbuf_read_wait returned -1 without an allocation failure");
     return;
   }
